@@ -35,3 +35,29 @@ func Advance(dt int64) int64 { return atomic.AddInt64(&cur, dt) }
 
 // Reset sets the clock back to Initial.
 func Reset() { atomic.StoreInt64(&cur, Initial) }
+
+// frozen: tickers created through NewTicker never fire (see FreezeTickers).
+var frozen int32
+
+// FreezeTickers makes every ticker created afterwards through NewTicker silent.
+// The sequential drivers call it: they run thousands of caches in one process
+// and compare each call with a sequential model, so a janitor of this or of an
+// earlier cache ticking in real time (the default interval is 10 s) would remove
+// entries and fire callbacks between two calls.  What the janitor does when its
+// ticker fires is observed by the real-time and scheduled harnesses instead.
+func FreezeTickers(b bool) {
+	if b {
+		atomic.StoreInt32(&frozen, 1)
+	} else {
+		atomic.StoreInt32(&frozen, 0)
+	}
+}
+
+// NewTicker is time.NewTicker, except that a frozen ticker has a period of
+// about 146 years.  The janitor goroutine is started all the same.
+func NewTicker(d time.Duration) *time.Ticker {
+	if d > 0 && atomic.LoadInt32(&frozen) == 1 {
+		return time.NewTicker(1 << 62)
+	}
+	return time.NewTicker(d)
+}
